@@ -257,6 +257,15 @@ func runTree(seed int64, idx int) {
 		}
 		return m
 	}
+	earlyCancel := idx%3 == 2 // every third tree: the supervisor is cancelled while failures / back-offs are in progress
+	if earlyCancel {
+		time.Sleep(time.Duration(50+rng.Intn(900)) * time.Millisecond)
+		cancelTree(t, cancel, w)
+		r.Count("trees_cancelled_mid_flight", 1)
+		r.Count("trees", 1)
+		r.Distinct("trees_distinct", "early-cancel:"+t.desc)
+		return
+	}
 	// ---- bounded progress: every scripted failure is finite, so the tree must become stable:
 	// every "wait" service running exactly once in a non-failing incarnation, every "done" service done.
 	stableSince := time.Time{}
@@ -434,7 +443,18 @@ func runTree(seed int64, idx int) {
 			}
 		}
 	}
-	// ---- cancellation of the whole tree
+	nEv := cancelTree(t, cancel, w)
+	r.Count("trees", 1)
+	r.Count("events", int64(nEv))
+	r.Count("services", int64(len(t.nodes)))
+	r.Distinct("trees_distinct", t.desc)
+	if idx < 2 {
+		r.Sample(map[string]interface{}{"tree": t.desc, "events_head": t.tail(1000)[:minInt(30, nEv)]})
+	}
+}
+
+// cancelTree cancels the supervisor's context and checks that every instance stops and nothing starts again.
+func cancelTree(t *tree, cancel context.CancelFunc, w func(map[string]interface{}) map[string]interface{}) int {
 	cancelAt := time.Since(t.start)
 	cancel()
 	stopDeadline := time.Now().Add(15 * time.Second)
@@ -461,20 +481,26 @@ func runTree(seed int64, idx int) {
 	}
 	time.Sleep(1500 * time.Millisecond)
 	t.mu.Lock()
-	for _, e := range t.events {
-		if e.Kind == "enter" && e.T > cancelAt+time.Second {
-			r.Violation("service-started-after-supervisor-cancel", w(map[string]interface{}{"service": e.DN, "entered": e.T.String(), "cancelled": cancelAt.String()}))
+	evsAfter := append([]event{}, t.events...)
+	t.mu.Unlock()
+	lastFail := map[string]time.Duration{}
+	for _, e := range evsAfter {
+		if e.Kind == "fail" {
+			lastFail[e.DN] = e.T
+		}
+		if e.Kind != "enter" || e.T <= cancelAt {
+			continue
+		}
+		// A schedule request accepted just before the cancel may still start its goroutine a moment
+		// later. A restart whose back-off ran out after the cancel must not happen at all: the
+		// instance entered well after the cancel and a whole back-off (>= 200 ms) after its failure.
+		f, failed := lastFail[e.DN]
+		if e.T > cancelAt+time.Second || (failed && f < cancelAt && e.T-f >= 200*time.Millisecond && e.T > cancelAt+100*time.Millisecond) {
+			r.Violation("service-started-after-supervisor-cancel", w(map[string]interface{}{"service": e.DN, "entered": e.T.String(), "cancelled": cancelAt.String(), "failed_at": f.String()}))
 		}
 	}
-	nEv := len(t.events)
-	t.mu.Unlock()
-	r.Count("trees", 1)
-	r.Count("events", int64(nEv))
-	r.Count("services", int64(len(t.nodes)))
-	r.Distinct("trees_distinct", t.desc)
-	if idx < 2 {
-		r.Sample(map[string]interface{}{"tree": t.desc, "events_head": t.tail(1000)[:minInt(30, nEv)]})
-	}
+	nEv := len(evsAfter)
+	return nEv
 }
 
 func minInt(a, b int) int {
